@@ -159,3 +159,74 @@ func expressionString(exp Expression) string {
 
 	return exp.String()
 }
+
+// ValidateUpdate applies to a parsed update expression the checks of the evaluator that do not
+// depend on the item (reserved words, unknown functions, a clause without actions): a request is
+// refused for them whatever the item holds, so they can be made before the condition of the
+// request is evaluated
+func ValidateUpdate(n *UpdateStatement) Object {
+	if n == nil {
+		return nil
+	}
+
+	update, ok := n.Expression.(*UpdateExpression)
+	if !ok {
+		return newError("invalid update expression: %s", n.String())
+	}
+
+	if len(update.Expressions) == 0 {
+		return newError(update.TokenLiteral() + " expression must have at least one action")
+	}
+
+	for _, act := range update.Expressions {
+		action, ok := act.(*ActionExpression)
+		if !ok {
+			return newError("invalid infix action")
+		}
+
+		if errObj := validateUpdateOperand(action.Left); isError(errObj) {
+			return errObj
+		}
+
+		if action.Right == nil && action.Token.Type == REMOVE {
+			continue
+		}
+
+		if errObj := validateUpdateOperand(action.Right); isError(errObj) {
+			return errObj
+		}
+	}
+
+	return nil
+}
+
+// validateUpdateOperand checks the target or the value of an update action
+func validateUpdateOperand(exp Expression) Object {
+	switch node := exp.(type) {
+	case *Identifier:
+		return validateName(node)
+	case *IndexExpression:
+		return validatePath(node)
+	case *InfixExpression:
+		if errObj := validateUpdateOperand(node.Left); isError(errObj) {
+			return errObj
+		}
+
+		return validateUpdateOperand(node.Right)
+	case *CallExpression:
+		if fn := evalFunctionCallIdentifer(node, nil); isError(fn) {
+			return fn
+		}
+
+		for _, arg := range node.Arguments {
+			if errObj := validateUpdateOperand(arg); isError(errObj) {
+				return errObj
+			}
+		}
+	default:
+		// what EvalUpdate has no value for: a missing operand, or a whole clause where an operand is expected
+		return newError("unsupported expression: %s", expressionString(exp))
+	}
+
+	return nil
+}
